@@ -255,7 +255,7 @@ func (f *fakeFamily) Write(_ context.Context, rows []metric.BrokerRow) error {
 	return nil
 }
 func (f *fakeFamily) FamilyTime() int64 { return f.familyTime }
-func (f *fakeFamily) Stop(int64)         {}
+func (f *fakeFamily) Stop(int64)        {}
 
 type fakeShard struct {
 	replica.ShardChannel
@@ -267,7 +267,7 @@ func (s *fakeShard) GetOrCreateFamilyChannel(familyTime int64) replica.FamilyCha
 	return &fakeFamily{shard: s.id, familyTime: familyTime, out: s.out}
 }
 func (s *fakeShard) SyncShardState(models.ShardState, map[models.NodeID]models.StatefulNode) {}
-func (s *fakeShard) Stop()                                                                    {}
+func (s *fakeShard) Stop()                                                                   {}
 
 type shardEventFn = func(models.Database, map[models.ShardID]models.ShardState, map[models.NodeID]models.StatefulNode)
 
